@@ -102,6 +102,7 @@ struct Prog {
     std::vector<Op> ops;
     std::string profile; // informational
     int strict = 0;      // 1: known-finding exclusions off (used by the known-finding probes)
+    int names = 0;       // 1: module names steered (guarded map hook) so that slots 0/1 and 2/3 share a home slot in the context's module map
     int cyc = 0;         // 1: callback scripts repeat cyclically for the first 24 invocations (invocation k runs script k mod n); 0: only the first n invocations are scripted
 };
 
@@ -115,6 +116,7 @@ inline std::string to_text(const Prog &p) {
     if (!p.profile.empty()) o << "profile " << p.profile << "\n";
     if (p.strict) o << "strict " << p.strict << "\n";
     if (p.cyc) o << "cyc " << p.cyc << "\n";
+    if (p.names) o << "names " << p.names << "\n";
     o << "nmods " << p.nmods << "\n";
     for (int i = 0; i < p.nmods; i++) o << "mod " << i << " hooks " << p.mods[i].hooks << "\n";
     for (int i = 0; i < p.nmods; i++)
@@ -153,6 +155,7 @@ inline bool from_text(const std::string &text, Prog &p) {
         if (w == "profile") { ls >> p.profile; }
         else if (w == "strict") { ls >> p.strict; }
         else if (w == "cyc") { ls >> p.cyc; }
+        else if (w == "names") { ls >> p.names; }
         else if (w == "nmods") { ls >> p.nmods; if (p.nmods < 0 || p.nmods > MAX_MODS) return false; }
         else if (w == "mod") { int i; std::string h; ls >> i >> h; if (i < 0 || i >= MAX_MODS) return false; ls >> p.mods[i].hooks; }
         else if (w == "script") {
